@@ -106,14 +106,12 @@ struct RuntimeFunctionIndices {
 /// Manages the layout of WASM linear memory regions:
 /// - 0..256: Reserved for future use
 /// - 256..512: Global variable storage
-/// - 512..1024: State exchange temporary region
-/// - 1024..: Dynamic allocation region
+/// - 512..1024: Reserved
+/// - 1024..: Static temporaries (including the state exchange buffers), then dynamic allocation
 #[derive(Debug, Clone)]
 struct MemoryLayout {
     /// Current offset for dynamic allocations (Alloc instructions)
     alloc_offset: u32,
-    /// Base address for state exchange temporary memory region
-    state_temp_base: u32,
     /// Global variable memory offsets: maps global VPtr to linear memory address
     global_offsets: HashMap<VPtr, u32>,
     /// Next available offset for global variable allocation
@@ -124,7 +122,6 @@ impl Default for MemoryLayout {
     fn default() -> Self {
         Self {
             alloc_offset: 1024,   // Start dynamic allocation after reserved regions
-            state_temp_base: 512, // Reserve 512..1024 for state exchange
             global_offsets: HashMap::new(),
             next_global_offset: 256, // Reserve 256..512 for globals
         }
@@ -2863,8 +2860,8 @@ impl WasmGenerator {
                 // Allocate a temp region in linear memory for state exchange
                 let size = ty.word_size() as i32;
                 let size_bytes = (size as u32).max(1) * 8;
-                let temp_addr = self.mem_layout.state_temp_base;
-                self.mem_layout.state_temp_base += size_bytes;
+                let temp_addr = self.mem_layout.alloc_offset;
+                self.mem_layout.alloc_offset += size_bytes;
 
                 // Call state_get(dst_ptr: i32, size_words: i32) to fill temp memory
                 func.instruction(&W::I32Const(temp_addr as i32));
@@ -2882,8 +2879,8 @@ impl WasmGenerator {
                 if size <= 1 {
                     // Single-word value: store to temp memory, then state_set from temp
                     let size_bytes = 8u32;
-                    let temp_addr = self.mem_layout.state_temp_base;
-                    self.mem_layout.state_temp_base += size_bytes;
+                    let temp_addr = self.mem_layout.alloc_offset;
+                    self.mem_layout.alloc_offset += size_bytes;
 
                     let memarg = MemArg {
                         offset: 0,
